@@ -456,7 +456,12 @@ impl<B: MysqlShim<RW>, RW: Read + Write> MysqlIntermediary<B, RW> {
                         };
                         let schema = ::std::str::from_utf8(&q[b"USE ".len()..])
                             .map_err(|e| io::Error::new(io::ErrorKind::InvalidData, e))?;
-                        let schema = schema.trim().trim_end_matches(';').trim_matches('`');
+                        // only ASCII white space separates tokens; anything else (NBSP,
+                        // U+3000, ...) is part of the name the client sent
+                        let schema = schema
+                            .trim_matches(|c: char| c.is_ascii_whitespace() || c == '\x0b')
+                            .trim_end_matches(';')
+                            .trim_matches('`');
                         self.shim.on_init(schema, w)?;
                     } else {
                         let w = QueryResultWriter::new(&mut self.rw, false);
